@@ -353,18 +353,24 @@ pub fn run<F: FnOnce() + Send + 'static>(cfg: Config, f: F) -> RunResult {
       done: done.clone(),
     });
   }
-  let h = spawn_logical(f, true);
+  let _ = spawn_logical(f, true);
   done.take();
-  // wait for all OS threads of this run to unwind
-  let _ = h;
-  let handles: Vec<ss::Arc<Baton>> = vec![];
-  drop(handles);
+  // wait for all OS threads of this run to unwind.  They are JOINED, never detached: dropping a JoinHandle calls
+  // pthread_detach, which in glibc races with the exit of the thread itself (the TCB can be unmapped between the two
+  // accesses of pthread_detach when the stack cache is full) - seen once as a segfault of the harness in ~10^8 spawns.
   loop {
-    let all_out = OS_LIVE.load(ss::atomic::Ordering::SeqCst) == 0;
-    if all_out {
-      break;
+    let h = OS_HANDLES.lock().unwrap_or_else(|e| e.into_inner()).pop();
+    match h {
+      Some(h) => {
+        let _ = h.join();
+      }
+      None => {
+        if OS_LIVE.load(ss::atomic::Ordering::SeqCst) == 0 {
+          break;
+        }
+        std::thread::yield_now();
+      }
     }
-    std::thread::yield_now();
   }
   let rt = RT.lock().unwrap().take().unwrap();
   RunResult {
@@ -380,6 +386,7 @@ pub fn run<F: FnOnce() + Send + 'static>(cfg: Config, f: F) -> RunResult {
 }
 
 static OS_LIVE: ss::atomic::AtomicUsize = ss::atomic::AtomicUsize::new(0);
+static OS_HANDLES: ss::Mutex<Vec<std::thread::JoinHandle<()>>> = ss::Mutex::new(Vec::new());
 
 fn spawn_logical<F: FnOnce() + Send + 'static>(f: F, first: bool) -> usize {
   let baton = Baton::new();
@@ -388,7 +395,7 @@ fn spawn_logical<F: FnOnce() + Send + 'static>(f: F, first: bool) -> usize {
     rt.threads.len() - 1
   });
   OS_LIVE.fetch_add(1, ss::atomic::Ordering::SeqCst);
-  std::thread::Builder::new()
+  let h = std::thread::Builder::new()
     .stack_size(16 << 20)
     .spawn(move || {
       TID.with(|t| t.set(Some(tid)));
@@ -439,6 +446,7 @@ fn spawn_logical<F: FnOnce() + Send + 'static>(f: F, first: bool) -> usize {
       OS_LIVE.fetch_sub(1, ss::atomic::Ordering::SeqCst);
     })
     .unwrap();
+  OS_HANDLES.lock().unwrap_or_else(|e| e.into_inner()).push(h);
   tid
 }
 
